@@ -204,6 +204,59 @@ def p_for(k, kind):
     return obs
 
 
+def p_while_pubbreak(k, kind):
+    """break condition that is a plain Python bool / int (computed from the public loop counter)"""
+    br = k.br
+    _ = br.BranchingValues()
+    _.w = 0
+    _.s = k.S("x")
+    n = k.S("n")
+    i = 0
+    while br._while(i != n, ctx=_) and i != 4:
+        _.w = i + 1
+        _.s = _.s + i
+        i += 1
+        br._breakif((i == 2) if kind == "cmp" else int(i == 2), ctx=_)
+    br._endwhile(ctx=_)
+    nv, x = k.v("n"), k.v("x")
+    w, s, j = 0, x, 0
+    while j != nv and j != 4:
+        w = j + 1
+        s = s + j
+        j += 1
+        if j == 2:
+            break
+    obs = []
+    compare(obs, _, {"w": w, "s": s})
+    return obs
+
+
+def p_for_break(k, kind):
+    """secret-bounded for loop left early: by a secret condition (kind cmp) or a public one (kind plain)"""
+    br = k.br
+    _ = br.BranchingValues()
+    _.sum = 0
+    _.last = -1
+    bsec = k.S("b")
+    for i in br._range(k.S("n"), max=3, ctx=_):
+        _.sum = _.sum + i + k.S("x")
+        _.last = i
+        br._breakif((i == bsec) if kind == "cmp" else (i == 1), ctx=_)
+    br._endfor(ctx=_)
+    nv, x, bv = k.v("n"), k.v("x"), k.v("b")
+    s, last = 0, -1
+    for i in range(3):
+        if i == nv:
+            break
+        s = s + i + x
+        last = i
+        if ((i == bv) if kind == "cmp" else (i == 1)):
+            break
+    obs = []
+    compare(obs, _, {"sum": s, "last": last})
+    return obs
+
+
 def p_forcheck(k, kind):
     """secret bound checked against the public maximum: a bound above the maximum must be rejected"""
     br = k.br
@@ -246,7 +299,8 @@ def p_lazy_div(k, kind):
 
 
 PROGRAMS = {"if_else": (p_if_else, ("c", "x")), "if_only": (p_if_only, ("c", "x", "y")), "elif": (p_elif, ("c", "d", "x")),
-            "nested": (p_nested, ("c", "d", "x")), "nestedop": (p_nested_op, ("c", "x")), "matrix": (p_matrix, ("c", "x")), "while": (p_while, ("n", "b", "x")), "for": (p_for, ("n", "x")), "forcheck": (p_forcheck, ("n",)),
+            "nested": (p_nested, ("c", "d", "x")), "nestedop": (p_nested_op, ("c", "x")), "matrix": (p_matrix, ("c", "x")), "while": (p_while, ("n", "b", "x")), "for": (p_for, ("n", "x")),
+            "while_pubbreak": (p_while_pubbreak, ("n", "x")), "for_break": (p_for_break, ("n", "b", "x")), "forcheck": (p_forcheck, ("n",)),
             "lazy": (p_lazy, ("c", "x", "y")), "lazy_div": (p_lazy_div, ("x", "y"))}
 
 
@@ -256,6 +310,8 @@ def build(n=4, tier="quick"):
         kinds = ("plain", "cmp") if nm not in ("lazy_div", "while", "for", "forcheck") else ("cmp",)
         if nm == "lazy":
             kinds = ("bool", "cmp")
+        if nm in ("while_pubbreak", "for_break"):
+            kinds = ("plain", "cmp")
         for kind in kinds:
             def assume(k, ins=ins, nm=nm):
                 cs = []
